@@ -43,6 +43,18 @@ def run(chk):
                 if pad not in (0, 63, 64, 127, 255) and rng.random() < 0.6:
                     continue
                 cases.append({"src": f"put \"{long_s}\" into X\n{st}\nsay \"after\"\n", "meta": "long value in error"})
+    # writes (and reads) through subscript chains of every depth around the inline capacities of the implementation's buffers
+    for d in (1, 2, 7, 8, 9, 10, 16, 17, 33, 60):
+        chain = " at 1" * d
+        for pre in ("", "put \"abc\" into X", "rock X with 1, 2", "X is 5"):
+            for st in (f"let X{chain} be 5", f"rock X{chain} with 7", f"roll X{chain}", f"listen to X{chain}", f"turn up X{chain}", f"cut \"a,b\" into X{chain}",
+                       f"build X{chain} up", f"X{chain} is 5", f"put 1 into it{chain}"):
+                if d not in (8, 9) and rng.random() < 0.5:
+                    continue
+                cases.append({"src": f"{pre}\n{st}\nsay X{chain}\nsay \"after\"\n".lstrip("\n"), "meta": f"subscript chain {d}"})
+    # programs at the size boundaries (0..3, 2^k-1, 2^k, 2^k+1) of every dimension that has a length
+    from . import gen_sizes
+    cases += [{"src": src, "stdin": stdin, "meta": f"size {dim}"} for (dim, n, src, stdin) in gen_sizes.size_programs(quick)]
     known_finding_crash(chk, "F7")
     recs = execsuite.run(chk, cases, "ill", suite_name="EXEC-illtyped")
     crashed = 0
@@ -66,7 +78,8 @@ def run(chk):
     record_exec(chk, recs2)
     chk.rule = ("every statement form applied to every value kind (30 source-level values incl. NaN/inf/-0/arrays), names shared by "
                 "functions and variables in every spelling and scope, degenerate and 1..120-word poetic literals, out-of-range "
-                "radices and indices, plus generated ill-typed programs; both build profiles; any panic/abort/hang of the "
+                "radices and indices, writes through subscript chains of depth 1..60, programs at the sizes 0..3 and 2^k-1, 2^k, 2^k+1 (up to 257; "
+                "4097 / 65537 in thorough) of 35 dimensions (parameters, arguments, operands, elements, keys, lengths, depths, counts), plus generated ill-typed programs; both build profiles; any panic/abort/hang of the "
                 "implementation is a violation, and stdout+outcome must equal the model's (which carries every unwrap/unchecked "
                 "site as an explicit Panic/UB outcome)")
     conclude(chk, "C09", proved)
